@@ -1,4 +1,5 @@
 import PymocaVerif.Lemmas.GenFunc
+import PymocaVerif.Lemmas.GenTotal
 import PymocaVerif.Model.RatPrims
 /-!
 # C11 — the DAE residual equals the Modelica meaning of the flat equations
@@ -30,15 +31,27 @@ example : ∃ c, gen ratPrims {} (fun _ => none)
   refine ⟨_, rfl, ?_⟩
   decide +kernel
 
-/-- **Every operator of the supported subset is translatable** (division and power included): an
-    expression built from the Modelica operators other than `<>`, the elementary functions `MX`
-    knows by their Modelica name, and calls of translatable functions, is accepted by `gen`. -/
-theorem gen_total_binary (o : Opts) (T : FTab K) (op : BinOp) (hne : op ≠ .ne) (ta tb : CTerm K) :
-    ∃ c, genBin o T op ta tb = .ok c := by
-  cases op <;> simp_all [genBin, opMap, hasMeth]
+/-- **Every expression of the supported subset is translatable** (division and power included): an
+    expression built from literals, references, every Modelica operator other than `<>`, the elementary
+    functions `MX` knows by their Modelica name, if-expressions of any length and calls of functions that
+    translate (`supported`), is accepted by `gen` — for all options and tables. -/
+theorem gen_total (P : Prims K) (o : Opts) (T : FTab K) (e : MExpr K) (h : supported T e = true) :
+    ∃ c, gen P o T e = .ok c :=
+  PymocaVerif.Gen.gen_total P o T e h
 
-example : ∃ c, genBin {} (fun _ => none : FTab Rat) .div (.const 1) (.const 2) = .ok c :=
-  gen_total_binary {} _ .div (by decide) _ _
+example : supported (fun _ => none : FTab Rat)
+    (.ife (.cons (.bin .le (.ref "x" []) (.num 1)) (.bin .div (.num 1) (.num 2))
+      (.last (.un (.elem .sqrt) (.bin .pow (.ref "x" []) (.num 2)))))) = true := by decide
+
+/-- What lies outside: Modelica's `<>` and the inverse trigonometric functions are rejected with
+    "Unknown function" unless a user function of that name exists (no `OP_MAP` entry / `MX` attribute). -/
+theorem ne_is_rejected (P : Prims K) (o : Opts) (a b : MExpr K) (ta tb : CTerm K)
+    (ha : gen P o (fun _ => none) a = .ok ta) (hb : gen P o (fun _ => none) b = .ok tb) :
+    gen P o (fun _ => none) (.bin .ne a b) = .error (.unknownFunction "<>") := by
+  simp [gen, ha, hb, bind, Except.bind, genBin, opMap, userCall, binName]
+
+example : gen ratPrims {} (fun _ => none) (.bin .ne (.num 1) (.num (2 : Rat))) = .error (.unknownFunction "<>") :=
+  ne_is_rejected ratPrims {} _ _ _ _ rfl rfl
 
 /-- **The backwards `if_else` loop is "first true branch"**: folding `if_else(cond, value, src)` from
     the last branch to the first (what `exitIfExpression`, `exitIfEquation` and `exitIfStatement` do)
